@@ -1,11 +1,13 @@
 package c14
 
 import (
+	"bytes"
 	"fmt"
 	"sort"
 
 	"golang.org/x/text/language"
 	"seehuhn.de/go/sfnt/name"
+	"seehuhn.de/go/sfnt/opentype/coverage"
 	"seehuhn.de/go/sfnt/opentype/gtab"
 	"seehuhn.de/go/sfnt/verifharness/vlib"
 )
@@ -91,6 +93,32 @@ func caseTags(args []vlib.Sx) (*res, error) {
 			}
 			if g.Required != ff.Required || len(g.Optional) != 2 || g.Optional[0] != ff.Optional[0] || g.Optional[1] != 7 {
 				r.failf("c14-scriptlist-roundtrip", "script %q: tag %v carries other features after encoding", script, tag)
+				break
+			}
+		}
+	}
+	// and through the public API: (*gtab.Info).Encode / gtab.Read of a whole GSUB table
+	full := &gtab.Info{
+		ScriptList:  info,
+		FeatureList: gtab.FeatureListInfo{{Tag: "liga", Lookups: []gtab.LookupIndex{0}}},
+		LookupList: gtab.LookupList{{
+			Meta:      &gtab.LookupMetaInfo{LookupType: 1},
+			Subtables: []gtab.Subtable{&gtab.Gsub1_1{Cov: coverage.Set{3: true}, Delta: 1}},
+		}},
+	}
+	var back2 *gtab.Info
+	if p, msg := guard(func() { back2, rerr = gtab.Read(bytes.NewReader(full.Encode()), gtab.TypeGsub) }); p {
+		r.failf("c14-scriptlist-panic", "gtab.Info.Encode / gtab.Read panics: %s", msg)
+	} else if rerr != nil {
+		r.failf("c14-scriptlist-roundtrip", "gtab.Read rejects the encoded GSUB table of script %q: %v", script, rerr)
+	} else {
+		if len(back2.ScriptList) != len(info) {
+			r.failf("c14-scriptlist-roundtrip", "script %q through gtab.Read: %d language systems written, %d read", script, len(info), len(back2.ScriptList))
+		}
+		for tag, ff := range info {
+			g, ok := back2.ScriptList[tag]
+			if !ok || g.Required != ff.Required {
+				r.failf("c14-scriptlist-roundtrip", "script %q through gtab.Read: tag %v lost or changed", script, tag)
 				break
 			}
 		}
